@@ -18,18 +18,46 @@ def Unit.settings : Unit → Settings
   | .bmp b => .bmp b.cfg
   | .other _ => .other
 
-theorem reconf_store (p : Bool) (u : Unit) (s : Settings) : (reconf p u s).store = u.store := by
+theorem reconf_store (p : Variant) (u : Unit) (s : Settings) : (reconf p u s).store = u.store := by
   cases u <;> cases s <;> rfl
 
-theorem reconf_sessions (p : Bool) (u : Unit) (s : Settings) : (reconf p u s).sessions = u.sessions := by
+theorem reconf_sessions (p : Variant) (u : Unit) (s : Settings) : (reconf p u s).sessions = u.sessions := by
+  cases u <;> cases s <;> try rfl
+  simp only [reconf, reconfBmp]
+  split <;> rfl
+
+theorem reconf_ty (p : Variant) (u : Unit) (s : Settings) : (reconf p u s).ty = u.ty := by
   cases u <;> cases s <;> rfl
 
-theorem reconf_ty (p : Bool) (u : Unit) (s : Settings) : (reconf p u s).ty = u.ty := by
-  cases u <;> cases s <;> rfl
+theorem bump_store (u : Unit) : u.bump.store = u.store := by cases u <;> rfl
+theorem bump_sessions (u : Unit) : u.bump.sessions = u.sessions := by cases u <;> rfl
 
-theorem reconf_idem (p : Bool) (u : Unit) (s : Settings) : reconf p (reconf p u s) s = reconf p u s := by
+theorem lookupU_bumpAll (n : Name) (acts : List Action) (units : List (Name × Unit)) :
+    lookupU n (bumpAll acts units)
+      = (lookupU n units).map (fun u => if acts.contains (.reconfU n) then u.bump else u) := by
+  induction units with
+  | nil => rfl
+  | cons e l ih =>
+    obtain ⟨k, w⟩ := e
+    by_cases hk : k = n
+    · subst hk
+      by_cases hc : Action.reconfU k ∈ acts
+      · simp [bumpAll, lookupU, hc]
+      · simp [bumpAll, lookupU, hc]
+    · by_cases hc : Action.reconfU k ∈ acts
+      · simp [bumpAll, lookupU, hc, hk, ih]
+      · simp [bumpAll, lookupU, hc, hk, ih]
+
+theorem reconf_idem (p : Variant) (u : Unit) (s : Settings) : reconf p (reconf p u s) s = reconf p u s := by
   cases u <;> cases s <;> simp [reconf, reconfRib, reconfBmp]
-  cases p <;> simp
+  · cases p.pathIgnored <;> simp
+  · rename_i b c
+    by_cases hw : b.wedged p.queueWedge = true
+    · simp [hw]
+    · have hw' : BmpUnit.wedged p.queueWedge
+          { cfg := c, bound := c.listen, sessions := b.sessions, stale := b.stale || p.cloneStale, reloads := b.reloads } = false := by
+        simpa [BmpUnit.wedged] using hw
+      simp [hw, hw']
 
 /-! ### `lookupU` through the list operations of `exec` -/
 
@@ -84,7 +112,7 @@ theorem lookupU_mapU (n m : Name) (f : Unit → Unit) (units : List (Name × Uni
       · simp [mapU, lookupU, hm, hn, ih]
 
 /-- What one action does to the unit named `n`. -/
-theorem lookupU_exec (p : Bool) (st : List (Name × Settings)) (units : List (Name × Unit)) (n : Name) (a : Action)
+theorem lookupU_exec (p : Variant) (st : List (Name × Settings)) (units : List (Name × Unit)) (n : Name) (a : Action)
     (hs : ∀ t, a ≠ .spawnU n t) (ht : a ≠ .termU n) :
     lookupU n (exec p st units a)
       = if a = .reconfU n then (lookupU n units).map (fun u => reconf p u (lookupS n st)) else lookupU n units := by
@@ -113,7 +141,7 @@ theorem lookupU_exec (p : Bool) (st : List (Name × Settings)) (units : List (Na
 
 /-- A unit that is neither spawned nor terminated by a list of actions is, afterwards, what it was
     — reconfigured with the file's settings if the list says so. -/
-theorem lookupU_foldl_exec (p : Bool) (st : List (Name × Settings)) (n : Name) (acts : List Action)
+theorem lookupU_foldl_exec (p : Variant) (st : List (Name × Settings)) (n : Name) (acts : List Action)
     (units : List (Name × Unit)) (hs : ∀ t, .spawnU n t ∉ acts) (ht : .termU n ∉ acts) :
     lookupU n (acts.foldl (exec p st) units)
       = if .reconfU n ∈ acts then (lookupU n units).map (fun u => reconf p u (lookupS n st)) else lookupU n units := by
@@ -186,19 +214,44 @@ theorem mem_upsert_other (r x : Rec) (st : List Rec) (h : x ∈ st) (hk : ¬ (x.
       · exact List.mem_cons_of_mem _ h
       · exact List.mem_cons_of_mem _ (ih h)
 
-theorem key_foldl_upsert (recs : List Rec) (st : List Rec) (x : Rec) (h : x ∈ st) :
-    ∃ y ∈ recs.foldl (fun st r => upsert r st) st, y.pfx = x.pfx ∧ y.src = x.src := by
+theorem key_withdraw (r x : Rec) (st : List Rec) (h : x ∈ st) :
+    ∃ y ∈ withdraw r st, y.pfx = x.pfx ∧ y.src = x.src := by
+  induction st with
+  | nil => cases h
+  | cons z zs ih =>
+    unfold withdraw
+    rcases List.mem_cons.mp h with h | h
+    · subst h
+      split
+      · rename_i hk
+        exact ⟨r, List.mem_cons_self, hk.1.symm, hk.2.symm⟩
+      · exact ⟨x, List.mem_cons_self, rfl, rfl⟩
+    · split
+      · exact ⟨x, List.mem_cons_of_mem _ h, rfl, rfl⟩
+      · obtain ⟨y, hy, hk⟩ := ih h
+        exact ⟨y, List.mem_cons_of_mem _ hy, hk⟩
+
+/-- neither an announcement nor a withdrawal removes a key -/
+theorem key_applyRec (r x : Rec) (st : List Rec) (h : x ∈ st) :
+    ∃ y ∈ applyRec r st, y.pfx = x.pfx ∧ y.src = x.src := by
+  unfold applyRec
+  split
+  · exact key_upsert r x st h
+  · exact key_withdraw r x st h
+
+theorem key_foldl_applyRec (recs : List Rec) (st : List Rec) (x : Rec) (h : x ∈ st) :
+    ∃ y ∈ recs.foldl (fun st r => applyRec r st) st, y.pfx = x.pfx ∧ y.src = x.src := by
   induction recs generalizing st x with
   | nil => exact ⟨x, h, rfl, rfl⟩
   | cons r rest ih =>
-    obtain ⟨y, hy, hk⟩ := key_upsert r x st h
-    obtain ⟨z, hz, hk'⟩ := ih (upsert r st) y hy
+    obtain ⟨y, hy, hk⟩ := key_applyRec r x st h
+    obtain ⟨z, hz, hk'⟩ := ih (applyRec r st) y hy
     exact ⟨z, hz, hk'.1.trans hk.1, hk'.2.trans hk.2⟩
 
-/-- all records of one Route Monitoring message (same router, same status) are in the store afterwards -/
-theorem mem_foldl_upsert_same (src : Nat) (active : Bool) (ps : List Nat) (st : List Rec) (q : Nat)
-    (h : q ∈ ps ∨ Rec.mk q src active ∈ st) :
-    Rec.mk q src active ∈ (ps.map (fun p => Rec.mk p src active)).foldl (fun st r => upsert r st) st := by
+/-- all prefixes announced in one Route Monitoring message are in the store afterwards -/
+theorem mem_foldl_announce (src : Nat) (ps : List Nat) (st : List Rec) (q : Nat)
+    (h : q ∈ ps ∨ Rec.mk q src true ∈ st) :
+    Rec.mk q src true ∈ (ps.map (fun p => Rec.mk p src true)).foldl (fun st r => applyRec r st) st := by
   induction ps generalizing st with
   | nil =>
     rcases h with h | h
@@ -207,6 +260,8 @@ theorem mem_foldl_upsert_same (src : Nat) (active : Bool) (ps : List Nat) (st : 
   | cons p rest ih =>
     simp only [List.map_cons, List.foldl_cons]
     apply ih
+    have ha : applyRec ⟨p, src, true⟩ st = upsert ⟨p, src, true⟩ st := by simp [applyRec]
+    rw [ha]
     by_cases hq : q = p
     · subst hq; exact Or.inr (mem_upsert_self _ _)
     · rcases h with h | h
